@@ -168,6 +168,76 @@ func (ex *Exec) AlignClosures() {
 	}
 }
 
+// LocalInfo: one source-level name of a function - a captured variable or a local - by position.
+type LocalInfo struct {
+	Kind string `json:"kind"` // param | free | local
+	Name string `json:"name"`
+	Type string `json:"type"`
+}
+
+// LocalsOf lists the captured variables and the source locals of a function in declaration order.
+func (ex *Exec) LocalsOf(fn *ssa.Function) []LocalInfo {
+	var out []LocalInfo
+	for _, pr := range fn.Params {
+		out = append(out, LocalInfo{"param", pr.Name(), pr.Type().String()})
+	}
+	for _, fv := range fn.FreeVars {
+		out = append(out, LocalInfo{"free", fv.Name(), fv.Type().String()})
+	}
+	for _, b := range fn.Blocks {
+		for _, in := range b.Instrs {
+			if a, ok := in.(*ssa.Alloc); ok && a.Comment != "" {
+				out = append(out, LocalInfo{"local", a.Comment, a.Type().String()})
+			}
+		}
+	}
+	return out
+}
+
+// renamedLocal: contracts name captured variables and source locals (loop invariants do). The baseline
+// spec/locals_baseline.json records, for every function under contract, those names by position. When a name a
+// contract uses no longer exists in the function, but the function still has the same number of names with the
+// same types in the same order, the name at the same position is meant (the variable was renamed).
+func (ex *Exec) renamedLocal(fn *ssa.Function, name string) (string, bool) {
+	if o := fn.Origin(); o != nil {
+		fn = o
+	}
+	base := ex.LocalsBaseline[ex.FuncKey(fn)]
+	cur := ex.LocalsOf(fn)
+	if len(base) == 0 || len(base) != len(cur) {
+		return "", false
+	}
+	idx := -1
+	for i := range base {
+		if base[i].Kind != cur[i].Kind || base[i].Type != cur[i].Type {
+			return "", false
+		}
+		if cur[i].Name == name {
+			return "", false // the name still exists: nothing was renamed away
+		}
+		if base[i].Name == name {
+			if idx >= 0 && cur[idx].Name != cur[i].Name {
+				return "", false
+			}
+			idx = i
+		}
+	}
+	if idx < 0 || cur[idx].Name == name {
+		return "", false
+	}
+	note := fmt.Sprintf("%s: the contract's name %q is taken to mean %q (same position and type; renamed)", shortName(ex.FuncKey(fn)), name, cur[idx].Name)
+	seen := false
+	for _, n := range ex.AliasNotes {
+		if n == note {
+			seen = true
+		}
+	}
+	if !seen {
+		ex.AliasNotes = append(ex.AliasNotes, note)
+	}
+	return cur[idx].Name, true
+}
+
 // IndexFunctions builds the key -> function map for module functions (incl. closures, generic instances).
 func (ex *Exec) IndexFunctions() {
 	var addFn func(fn *ssa.Function)
@@ -555,6 +625,9 @@ func (ex *Exec) callWithContractEnv(st *State, instr ssa.Instruction, callee *ss
 			}
 		}
 	}
+	saved := ex.applyingFn
+	ex.applyingFn = callee
+	defer func() { ex.applyingFn = saved }()
 	return ex.applyContract(st, instr, names, ex.resultNames(callee, ct), callee.Signature, ct, all)
 }
 
